@@ -15,77 +15,96 @@ Fixpoint items_good (base : N) (ts : list ltest) (os : list titem) : Prop :=
   | _, _ => False
   end.
 
-Lemma all_tests : forall ts w T0 a rest, Between w T0 a ->
-  valid_trace (addrs (pure_recs T0)) (flat_text ts ++ rest) = true ->
-  exists a', Between (fst (run_tests w ts)) (T0 ++ flat_text ts) a' /\
-             valid_trace (addrs (pure_recs (T0 ++ flat_text ts))) rest = true /\
-             items_good (1 + allocs T0) ts (snd (run_tests w ts)).
+Lemma all_tests P0 : forall ts w T0 a rest, Between P0 w T0 a ->
+  valid_trace (addrs (pure_recs P0 T0)) (flat_text ts ++ rest) = true ->
+  exists a', Between P0 (fst (run_tests w ts)) (T0 ++ flat_text ts) a' /\
+             valid_trace (addrs (pure_recs P0 (T0 ++ flat_text ts))) rest = true /\
+             items_good (1 + allocs P0 + allocs T0) ts (snd (run_tests w ts)).
 Proof.
   induction ts as [|t ts IH]; intros w T0 a rest HB HV.
   - cbn. rewrite app_nil_r. exists a. auto.
   - cbn [flat_text flat_map] in *. fold (flat_text ts) in *. rewrite <- app_assoc in HV.
-    destruct (one_test w T0 a t _ HB HV) as (a1 & HB1 & HV1 & HG1).
+    destruct (one_test P0 w T0 a t _ HB HV) as (a1 & HB1 & HV1 & HG1).
     cbn [run_tests]. destruct (run_one w t) as [w1 i]. cbn [fst snd] in *.
     destruct (IH w1 _ a1 rest HB1 HV1) as (a2 & HB2 & HV2 & HG2).
     destruct (run_tests w1 ts) as [w2 os]. cbn [fst snd] in *.
     rewrite <- app_assoc in HB2, HV2. exists a2. split; [assumption|]. split; [assumption|].
     cbn [items_good]. cbn zeta. split; [exact HG1|].
-    replace (1 + allocs T0 + allocs (t_before t) + allocs (executed t)) with (1 + allocs (T0 ++ text_of t))
+    replace (1 + allocs P0 + allocs T0 + allocs (t_before t) + allocs (executed t)) with (1 + allocs P0 + allocs (T0 ++ text_of t))
       by (unfold text_of; rewrite !allocs_app; lia).
     exact HG2.
 Qed.
 
-Lemma between_init : Between w_init [] (mkA [] SEnabled 0 1).
+(* the plugin is created after the statements P0 ran on the fresh (disabled) detector *)
+Lemma between_init P0 rest : valid_trace [] (P0 ++ rest) = true ->
+  exists a, Between P0 (w_start (fold_left mem_stmt P0 d_init)) [] a /\ valid_trace (addrs (pure_recs P0 [])) rest = true.
 Proof.
-  constructor; try reflexivity. exact (R_period _ _ SEnabled R_init).
+  intros HV. destruct (mem_refines P0 rest _ _ R_init HV) as [HR HV'].
+  destruct (aexec_formula P0 a_init) as (E1 & E2 & E3 & E4). cbn zeta in *. cbn [a_init a_recs a_period a_stage a_seq filter] in E1, E2, E3, E4.
+  rewrite app_nil_r in E1.
+  assert (EP : pure_recs P0 [] = a_recs (fold_left astep P0 a_init)).
+  { unfold pure_recs, en_recs, dis_recs. cbn [nodes rev app]. rewrite E1. apply filter_all. intros; reflexivity. }
+  set (af := fold_left astep P0 a_init) in *.
+  exists (mkA (a_recs af) SEnabled (a_stage af) (a_seq af)). split.
+  - constructor; cbn [w_start w_det w_ignore w_expected w_err a_recs a_period a_stage a_seq]; try reflexivity.
+    + apply R_period. exact HR.
+    + symmetry. exact EP.
+    + assumption.
+    + rewrite E2. change (allocs []) with 0. lia.
+  - rewrite EP. assumption.
 Qed.
 
 (* ------------------------------------------------------------------ FinalReport *)
-Lemma final_spec w T a tbd : Between w T a ->
-  let out := leaked 1 T in
+Lemma final_spec P0 w T a tbd : Between P0 w T a ->
+  let out := leaked (1 + allocs P0) T in
   if len out =? tbd then final_report w tbd = (None, false)
   else exists l, final_report w tbd = (Some l, false) /\ Permutation (map ent l) out.
 Proof.
   intros [HR Hrecs Hp Hs Hq Hi He Hx] out. pose proof HR as (HI & HP & _).
-  assert (Hall : forall n, In n (a_recs a) -> applies PEnabled n = true).
-  { intros n Hn. rewrite Hrecs in Hn. unfold applies. rewrite (pure_enabled _ _ Hn). reflexivity. }
-  assert (Hout : map ent (a_recs a) = rev out).
-  { rewrite Hrecs. unfold pure_recs, out. rewrite map_rev, nodes_leaked. reflexivity. }
+  assert (Hen : forall n, In n (en_recs P0 T) -> applies PEnabled n = true).
+  { intros n Hn. unfold applies. rewrite (en_enabled _ _ _ Hn). reflexivity. }
+  assert (Hdis : forall n, In n (dis_recs P0 T) -> applies PEnabled n = false).
+  { intros n Hn. unfold applies. rewrite (dis_disabled _ _ _ Hn). reflexivity. }
+  assert (Hout : map ent (en_recs P0 T) = rev out).
+  { unfold en_recs, out. rewrite map_rev, nodes_leaked. reflexivity. }
   assert (Hleaks : t_total PEnabled (d_tbl (w_det w)) = len out).
-  { rewrite (count_perm _ _ _ HP). rewrite <- (app_nil_r (a_recs a)), count_split; [|assumption|intros n []].
+  { rewrite (count_perm _ _ _ HP), Hrecs. unfold pure_recs. rewrite count_split by assumption.
     rewrite <- (len_map ent), Hout. apply len_rev. }
   unfold final_report. rewrite Hleaks, Hx.
   destruct (len out =? tbd); cbn [negb]; [reflexivity|].
   rewrite (report_spec _ _ HI). eexists. split; [reflexivity|].
   eapply perm_trans; [apply Permutation_map, perm_filter; exact HP|].
-  rewrite (filter_all _ _ Hall), Hout. apply Permutation_sym, Permutation_rev.
+  rewrite Hrecs. unfold pure_recs. rewrite filter_app, (filter_all _ _ Hen), (filter_none _ _ Hdis), app_nil_r, Hout.
+  apply Permutation_sym, Permutation_rev.
 Qed.
 
 (* ------------------------------------------------------------------ the whole run *)
 Lemma trace_text s : trace s = flat_text (s_tests s) ++ s_tail s.
 Proof. reflexivity. Qed.
 
-Lemma valid_trace_of s : valid s = true -> valid_trace [] (trace s) = true.
+Lemma valid_trace_of s : valid s = true -> valid_trace [] (s_pre s ++ trace s) = true.
 Proof. unfold valid. intros H. apply andb_true_iff in H. apply H. Qed.
 
 Definition final_good (s : scenario) (o : obs) : Prop :=
-  let out := leaked 1 (trace s) in
+  let out := leaked (1 + allocs (s_pre s)) (trace s) in
   if len out =? s_tbd s then
     o_empty o = true /\ o_noleaks o = false /\ o_many o = false /\ o_total o = 0 /\ o_entries o = []
   else
     o_empty o = false /\ o_noleaks o = is_nil out /\ o_many o = false /\ o_total o = len out /\ Permutation (o_entries o) out.
 
 Lemma run_good s : valid s = true ->
-  o_err (run s) = false /\ o_stray (run s) = 0 /\ items_good 1 (s_tests s) (o_tests (run s)) /\ final_good s (run s).
+  o_err (run s) = false /\ o_stray (run s) = 0 /\ items_good (1 + allocs (s_pre s)) (s_tests s) (o_tests (run s)) /\ final_good s (run s).
 Proof.
   intros HV. apply valid_trace_of in HV. rewrite trace_text in HV.
-  destruct (all_tests (s_tests s) w_init [] _ (s_tail s) between_init HV) as (a1 & HB1 & HV1 & HG1).
-  cbn [app] in *. unfold run. destruct (run_tests w_init (s_tests s)) as [w os]. cbn [fst snd] in *.
+  destruct (between_init _ _ HV) as (a0 & HB0 & HV0).
+  destruct (all_tests _ (s_tests s) _ [] _ (s_tail s) HB0 HV0) as (a1 & HB1 & HV1 & HG1).
+  cbn [app] in *. unfold allocs at 2 in HG1. cbn [filter length len] in HG1. rewrite N.add_0_r in HG1.
+  unfold run. destruct (run_tests (w_start (fold_left mem_stmt (s_pre s) d_init)) (s_tests s)) as [w os]. cbn [fst snd] in *.
   rewrite <- (app_nil_r (s_tail s)) in HV1.
-  destruct (outside_ops _ _ _ _ _ HB1 HV1) as (a2 & HB2 & _).
-  pose proof (final_spec _ _ _ (s_tbd s) HB2) as HF. cbn zeta in HF.
+  destruct (outside_ops _ _ _ _ _ _ HB1 HV1) as (a2 & HB2 & _).
+  pose proof (final_spec _ _ _ _ (s_tbd s) HB2) as HF. cbn zeta in HF.
   unfold final_good. rewrite trace_text.
-  destruct (len (leaked 1 (flat_text (s_tests s) ++ s_tail s)) =? s_tbd s).
+  destruct (len (leaked (1 + allocs (s_pre s)) (flat_text (s_tests s) ++ s_tail s)) =? s_tbd s).
   - rewrite HF. cbn. auto 10.
   - destruct HF as (l & -> & PL). cbn [o_err o_stray o_tests o_empty o_noleaks o_many o_total o_entries].
     repeat split; try assumption.
@@ -125,19 +144,20 @@ Lemma run_meets_spec s : valid s = true -> spec s (run s) = true.
 Proof.
   intros HV. destruct (run_good s HV) as (E1 & E2 & HG & HF).
   unfold spec. rewrite E1, E2, (items_good_spec _ _ _ HG). cbn [negb N.eqb andb].
-  unfold final_good in HF. destruct (len (leaked 1 (trace s)) =? s_tbd s).
+  unfold final_good in HF. destruct (len (leaked (1 + allocs (s_pre s)) (trace s)) =? s_tbd s).
   - destruct HF as (-> & -> & -> & -> & ->). reflexivity.
   - destruct HF as (-> & -> & -> & -> & P). cbn [Bool.eqb]. apply check_report_perm. assumption.
 Qed.
 
 (* ------------------------------------------------------------------ test number i *)
-Definition no_test : ltest := mkT [] [] [] [].
+Definition no_test : ltest := mkT [] [] [] [] [] [].
 Definition no_item : titem := mkTI 0 0 false false 0 [].
 (* ordinal of the first allocation test i makes: 1 + everything allocated before its setup *)
-Definition base_of (ts : list ltest) (i : nat) : N :=
-  1 + allocs (flat_text (firstn i ts)) + allocs (t_before (nth i ts no_test)).
+Definition base_from (b0 : N) (ts : list ltest) (i : nat) : N :=
+  b0 + allocs (flat_text (firstn i ts)) + allocs (t_before (nth i ts no_test)).
+Definition base_of (s : scenario) (i : nat) : N := base_from (1 + allocs (s_pre s)) (s_tests s) i.
 (* L_i, on the program text *)
-Definition leaks_of (ts : list ltest) (i : nat) : list entry2 := leaked (base_of ts i) (executed (nth i ts no_test)).
+Definition leaks_of (s : scenario) (i : nat) : list entry2 := leaked (base_of s i) (executed (nth i (s_tests s) no_test)).
 
 Lemma items_good_nth : forall ts os base, items_good base ts os ->
   length os = length ts /\
@@ -158,7 +178,7 @@ Proof.
 Qed.
 
 Lemma item_of s i : valid s = true -> (i < length (s_tests s))%nat ->
-  item_good (base_of (s_tests s) i) (nth i (s_tests s) no_test) (nth i (o_tests (run s)) no_item).
+  item_good (base_of s i) (nth i (s_tests s) no_test) (nth i (o_tests (run s)) no_item).
 Proof.
   intros HV Hi. destruct (run_good s HV) as (_ & _ & HG & _).
   destruct (items_good_nth _ _ _ HG) as [_ Hn]. exact (Hn i Hi).
@@ -173,21 +193,21 @@ Qed.
 Lemma verdict_iff s i : valid s = true -> (i < length (s_tests s))%nat ->
   let ex := executed (nth i (s_tests s) no_test) in
   let o := nth i (o_tests (run s)) no_item in
-  (ti_leak o = 1 <-> own_failures ex = 0 /\ asked_ignore ex = false /\ len (leaks_of (s_tests s) i) <> declared ex) /\
+  (ti_leak o = 1 <-> own_failures ex = 0 /\ asked_ignore ex = false /\ len (leaks_of s i) <> declared ex) /\
   (ti_leak o = 0 \/ ti_leak o = 1) /\
   ti_fail o = own_failures ex + ti_leak o.
 Proof.
   intros HV Hi ex o. pose proof (item_of s i HV Hi) as H. unfold item_good in H. fold ex in H. fold o in H.
   rewrite <- verdict_true_iff. unfold leaks_of. fold ex.
-  destruct (verdict ex (leaked (base_of (s_tests s) i) ex)) eqn:Ev.
+  destruct (verdict ex (leaked (base_of s i) ex)) eqn:Ev.
   - destruct H as (F & Lk & _). rewrite Lk, F. apply verdict_true_iff in Ev. destruct Ev as (-> & _). repeat split; auto.
   - destruct H as (F & Lk & _). rewrite Lk, F. repeat split; auto; try discriminate. lia.
 Qed.
 
 Lemma report_exact s i : valid s = true -> (i < length (s_tests s))%nat ->
   let o := nth i (o_tests (run s)) no_item in
-  (ti_leak o = 1 -> Permutation (ti_entries o) (leaks_of (s_tests s) i) /\ ti_total o = len (leaks_of (s_tests s) i) /\
-                    ti_many o = false /\ (ti_noleaks o = true <-> leaks_of (s_tests s) i = [])) /\
+  (ti_leak o = 1 -> Permutation (ti_entries o) (leaks_of s i) /\ ti_total o = len (leaks_of s i) /\
+                    ti_many o = false /\ (ti_noleaks o = true <-> leaks_of s i = [])) /\
   (ti_leak o = 0 -> ti_entries o = []).
 Proof.
   intros HV Hi o. pose proof (item_of s i HV Hi) as H. unfold item_good in H. fold o in H. unfold leaks_of.
@@ -216,10 +236,10 @@ Proof.
   destruct (existsb (frees id) r); [apply IH in H; lia|]. destruct H as [<-|H]; [cbn; lia|apply IH in H; lia].
 Qed.
 
-Lemma base_mono ts i j : (i < j)%nat -> (j < length ts)%nat ->
-  base_of ts i + allocs (executed (nth i ts no_test)) <= base_of ts j.
+Lemma base_mono b0 ts i j : (i < j)%nat -> (j < length ts)%nat ->
+  base_from b0 ts i + allocs (executed (nth i ts no_test)) <= base_from b0 ts j.
 Proof.
-  intros Hij Hj. unfold base_of.
+  intros Hij Hj. unfold base_from.
   assert (E : firstn j ts = firstn i ts ++ nth i ts no_test :: firstn (j - S i) (skipn (S i) ts)).
   { revert i j Hij Hj. induction ts as [|t ts IH]; intros i j Hij Hj; [cbn in Hj; lia|].
     destruct j as [|j]; [lia|]. destruct i as [|i].
@@ -230,13 +250,13 @@ Proof.
 Qed.
 
 Lemma no_cross_blame s i j : valid s = true -> (i < j)%nat -> (j < length (s_tests s))%nat ->
-  forall e, In e (leaks_of (s_tests s) i) ->
-    ~ In (fst e) (map fst (ti_entries (nth j (o_tests (run s)) no_item))) /\ ~ In (fst e) (map fst (leaks_of (s_tests s) j)).
+  forall e, In e (leaks_of s i) ->
+    ~ In (fst e) (map fst (ti_entries (nth j (o_tests (run s)) no_item))) /\ ~ In (fst e) (map fst (leaks_of s j)).
 Proof.
   intros HV Hij Hj e He.
-  assert (HL : ~ In (fst e) (map fst (leaks_of (s_tests s) j))).
+  assert (HL : ~ In (fst e) (map fst (leaks_of s j))).
   { intros Hin. apply in_map_iff in Hin. destruct Hin as (e' & E & He').
-    apply leaked_range in He. apply leaked_range in He'. pose proof (base_mono _ _ _ Hij Hj). lia. }
+    apply leaked_range in He. apply leaked_range in He'. pose proof (base_mono (1 + allocs (s_pre s)) _ _ _ Hij Hj). unfold base_of in *. lia. }
   split; [|assumption].
   destruct (report_exact s j HV Hj) as [H1 H0]. destruct (verdict_iff s j HV Hj) as (_ & [D|D] & _).
   - rewrite (H0 D). intros [].
@@ -255,42 +275,43 @@ Proof.
 Qed.
 
 (* the state before every preTestAction: after k tests and the outside statements that precede test k *)
-Definition world_before_pre (ts : list ltest) (k : nat) : world :=
-  let w := fst (run_tests w_init (firstn k ts)) in
-  with_det w (fold_left mem_stmt (t_before (nth k ts no_test)) (w_det w)).
+Definition world_before_pre (s : scenario) (k : nat) : world :=
+  let w := fst (run_tests (w_start (fold_left mem_stmt (s_pre s) d_init)) (firstn k (s_tests s))) in
+  with_det w (fold_left mem_stmt (t_before (nth k (s_tests s) no_test)) (w_det w)).
 
 Lemma skipn_nth {A} (d : A) : forall k l, (k < length l)%nat -> skipn k l = nth k l d :: skipn (S k) l.
 Proof. induction k; intros [|t l] Hk; cbn in *; try lia; [reflexivity|apply IHk; lia]. Qed.
 
-Lemma between_before_pre s k : valid s = true -> exists T a, Between (world_before_pre (s_tests s) k) T a.
+Lemma between_before_pre s k : valid s = true -> exists T a, Between (s_pre s) (world_before_pre s k) T a.
 Proof.
   intros HV. apply valid_trace_of in HV. rewrite trace_text in HV.
   rewrite <- (firstn_skipn k (s_tests s)) in HV. unfold flat_text in HV. rewrite flat_map_app, <- app_assoc in HV.
-  destruct (all_tests (firstn k (s_tests s)) w_init [] _ _ between_init HV) as (a1 & HB1 & HV1 & _).
+  destruct (between_init _ _ HV) as (a0 & HB0 & HV0).
+  destruct (all_tests _ (firstn k (s_tests s)) _ [] _ _ HB0 HV0) as (a1 & HB1 & HV1 & _).
   cbn [app] in *. unfold world_before_pre.
   destruct (Nat.lt_ge_cases k (length (s_tests s))) as [Hk|Hk].
   - rewrite (skipn_nth no_test k _ Hk) in HV1. cbn [flat_map] in HV1. unfold text_of at 1 in HV1. rewrite <- !app_assoc in HV1.
-    destruct (outside_ops _ _ _ _ _ HB1 HV1) as (a2 & HB2 & _). eauto.
+    destruct (outside_ops _ _ _ _ _ _ HB1 HV1) as (a2 & HB2 & _). eauto.
   - rewrite (nth_overflow _ _ Hk). cbn [t_before no_test fold_left].
-    destruct (fst (run_tests w_init (firstn k (s_tests s)))) eqn:Ew. unfold with_det. cbn. eauto.
+    destruct (fst (run_tests _ (firstn k (s_tests s)))) eqn:Ew. unfold with_det. cbn. eauto.
 Qed.
 
 Lemma inv_no_checking_between_tests s k : valid s = true ->
-  let w := world_before_pre (s_tests s) k in
-  Forall (fun n => n_period n = SEnabled) (flat (d_tbl (w_det w))) /\
+  let w := world_before_pre s k in
+  Forall (fun n => n_period n <> SChecking) (flat (d_tbl (w_det w))) /\
   d_period (w_det w) = SEnabled /\ t_total PChecking (d_tbl (w_det w)) = 0.
 Proof.
   intros HV w. destruct (between_before_pre s k HV) as (T & a & [HR Hrecs Hp Hs Hq Hi He Hx]). fold w in HR.
   pose proof HR as (HI & HP & E1 & _).
-  assert (HF : Forall (fun n => n_period n = SEnabled) (flat (d_tbl (w_det w)))).
-  { apply Forall_forall. intros n Hn. eapply pure_enabled. rewrite <- Hrecs. eapply Permutation_in; eassumption. }
+  assert (HF : Forall (fun n => n_period n <> SChecking) (flat (d_tbl (w_det w)))).
+  { apply Forall_forall. intros n Hn. eapply pure_not_checking. rewrite <- Hrecs. eapply Permutation_in; eassumption. }
   split; [assumption|]. split; [congruence|].
   rewrite total_flat. rewrite filter_none; [reflexivity|].
-  intros n Hn. rewrite in_period_applies. unfold applies. rewrite (proj1 (Forall_forall _ _) HF n Hn). reflexivity.
+  intros n Hn. rewrite in_period_applies. apply not_checking_applies. exact (proj1 (Forall_forall _ _) HF n Hn).
 Qed.
 
 Lemma flags_reset s k : valid s = true ->
-  let w := world_before_pre (s_tests s) k in w_ignore w = false /\ w_expected w = 0 /\ w_err w = false.
+  let w := world_before_pre s k in w_ignore w = false /\ w_expected w = 0 /\ w_err w = false.
 Proof. intros HV w. destruct (between_before_pre s k HV) as (T & a & [HR Hrecs Hp Hs Hq Hi He Hx]). auto. Qed.
 
 Lemma final_report_exact s : valid s = true -> final_good s (run s).
@@ -298,18 +319,21 @@ Proof. intros HV. apply (run_good s HV). Qed.
 
 (* ------------------------------------------------------------------ the hypotheses are satisfiable: a program with every ingredient *)
 Definition example_s : scenario := mkS
-  [ mkT [] [SAlloc 1 4 0] [SAlloc 2 8 1; SFree 1] [];                    (* block 2 outlives the test: leak failure *)
-    mkT [SAlloc 9 1 2] [] [SFree 2; SAlloc 3 1 0; SExpect 1] [];         (* releases the earlier block, leaks one, declared one: passes *)
-    mkT [] [SAlloc 4 1 0; SFail; SFree 4] [SAlloc 5 1 0] [SIgnore];      (* fails in setup: body skipped, no leak failure although 4 stays *)
-    mkT [] [] [SAlloc 1 2 0; SIgnore] [SExpect 7];                       (* address 1 reused; asked to ignore *)
-    mkT [] [] [SExpect 2; SAlloc 6 0 1] [] ]                             (* one leak, two declared: leak failure *)
+  [SAlloc 20 5 0; SAlloc 21 5 0]                                         (* before the plugin exists: ordinals 1, 2 *)
+  [ mkT [] [] [SAlloc 1 4 0] [SAlloc 2 8 1; SFree 1; SFree 20] [] [];    (* block 2 outlives the test: leak failure *)
+    mkT [SAlloc 9 1 2] [] [] [SFree 2; SAlloc 3 1 0; SExpect 1] [] [];   (* releases the earlier block, leaks one, declared one: passes *)
+    mkT [] [] [SAlloc 4 1 0; SFail; SFree 4] [SAlloc 5 1 0] [SIgnore] []; (* fails in setup: body skipped, no leak failure although 4 stays *)
+    mkT [] [] [] [SAlloc 1 2 0; SIgnore] [SExpect 7] [];                 (* address 1 reused; asked to ignore *)
+    mkT [] [] [] [SExpect 2; SAlloc 6 0 1] [] [];                        (* one leak, two declared: leak failure *)
+    mkT [] [SAlloc 7 1 0] [] [] [] [SFree 7];                            (* a plugin's pre-action allocates, its post-action releases: clean *)
+    mkT [] [] [] [SAlloc 8 1 0] [] [SFail; SFail] ]                      (* the inner plugin reports failures: no leak failure on top *)
   [SFree 9] 0.
 Example example_valid : valid example_s = true.
 Proof. vm_compute. reflexivity. Qed.
 Example example_run :
-  map ti_leak (o_tests (run example_s)) = [1; 0; 0; 0; 1] /\ map ti_fail (o_tests (run example_s)) = [1; 0; 1; 0; 1] /\
-  map ti_entries (o_tests (run example_s)) = [[(2, 8)]; []; []; []; [(7, 0)]] /\
-  o_empty (run example_s) = false /\ o_total (run example_s) = 4.
+  map ti_leak (o_tests (run example_s)) = [1; 0; 0; 0; 1; 0; 0] /\ map ti_fail (o_tests (run example_s)) = [1; 0; 1; 0; 1; 0; 2] /\
+  map ti_entries (o_tests (run example_s)) = [[(4, 8)]; []; []; []; [(9, 0)]; []; []] /\
+  o_empty (run example_s) = false /\ o_total (run example_s) = 5.
 Proof. vm_compute. repeat split; reflexivity. Qed.
-Example example_before_pre : world_before_pre (s_tests example_s) 1 <> w_init.
+Example example_before_pre : world_before_pre example_s 1 <> w_start d_init.
 Proof. vm_compute. discriminate. Qed.
